@@ -285,7 +285,10 @@ def batch_plan(tier, seed):
         for k, g in enumerate(('rnd_plain', 'rnd_struct', 'rnd_bitmap')):
             v, ed = mv[(seed + k) % 5]
             plan.append(('v%d %s' % (v, g.replace('_', ' ')), g, dict(mversion=v, editions=(ed,), subset_counts=(1, 2), seeds=((rot + k) % 5,), fmax=2, slack=0)))
+        plan.append(('v33 Table D sequences', 'tabled_33', dict(mversion=33, editions=(4,), subset_counts=(1, 2), seeds=((rot + 3) % 5,), fmax=1, slack=0)))
     else:
+        for mv in (19, 25, 33, 41):
+            plan.append(('v%d Table D sequences' % mv, 'tabled_%d' % mv, dict(mversion=mv, editions=(4,) if mv != 25 else (3,), subset_counts=(1, 2), seeds=(rot, (rot + 3) % 5), fmax=1, slack=0)))
         for mv in (33, 35, 13, 19, 41):
             eds = {33: (4,), 35: (3,), 13: (2,), 19: (4,), 41: (3,)}[mv]
             plan.append(('v%d plain' % mv, 'plain', dict(mversion=mv, editions=eds, subset_counts=(1, 2, 3), seeds=(0, 1, 2, 3, 4), slack=1)))
